@@ -374,14 +374,16 @@ class RequestCache(TaskManager):
         if identifier in self._identifiers:
             self._identifiers.pop(identifier)
 
-        cache.on_timeout()
-
-        for future, on_timeout in cache.managed_futures:
-            if not future.done():
-                if isinstance(on_timeout, Exception):
-                    future.set_exception(on_timeout)
-                else:
-                    future.set_result(on_timeout)
+        try:
+            cache.on_timeout()
+        finally:
+            # Also when on_timeout raises: the identifier is gone, so nothing else would ever resolve these futures.
+            for future, on_timeout in cache.managed_futures:
+                if not future.done():
+                    if isinstance(on_timeout, Exception):
+                        future.set_exception(on_timeout)
+                    else:
+                        future.set_result(on_timeout)
 
     def _create_identifier(self, number: int, prefix: str) -> str:
         return f"{prefix}:{number}"
